@@ -257,9 +257,12 @@ func init() {
 		Assumptions: []string{
 			"fp=uf: a float32 is its bit pattern; + - * / are uninterpreted functions of bit patterns (+ and * commutative): if two lanes are equal for every interpretation they are equal under IEEE-754; NaN payload propagation is outside the claim",
 			"asmx (Engine B) models the 45 mnemonics used by asm_x86.s as documented in the Intel SDM / Go assembler operand order; a mis-modelled instruction would show up as an inequality that native replay does not confirm (reported as broken, never as a violation)",
-			"agreement with the mathematical DCT-II within the float rounding bound is not decided here (DESIGN.md C18-3/4)",
+			"agreement with the DCT-II (C18-3/4): the output terms of the portable kernels (float32 forwardDCT64/256, float64 forwardDCT64/256 and the generic DCT1D on 32 points) are read over the reals as linear forms with exact rational coefficients; for every real x, |out_k(x) - DCTII_k(x)| <= eps*||x||_1 is one linear-real-arithmetic query per output (second z3 process, l1 unit ball by homogeneity, coefficient differences rounded to 2^-96 with the rounding taken off eps, float64 math.Cos trusted to 4e-16); the rounding error of the float evaluation is a running first-order-plus-(1+u) error bound per input lane (no underflow/overflow), required to stay within the stated budget",
+			"the property's own figure 1e-5*||x||_1 is checked concretely on all 64 + 256 unit impulses (the machine folds float32 operations on constants with Go's float32 arithmetic); it is NOT established for all vectors: the sound float32 rounding bounds are 2.9e-5 (n=64) and 1.6e-4 (n=256)",
 		},
-		Bounds: map[string]interface{}{"kernels": "asmForwardDCT64 vs forwardDCT64 (64 symbolic inputs), asmForwardDCT256 vs forwardDCT256 (256), asmDCT2DHash64 vs DCT2DHash64 Go branch (4096)", "memory": "every load/store of the three routines checked against the argument slice, the declared stack frame and the RODATA tables"},
+		Bounds: map[string]interface{}{"kernels": "asmForwardDCT64 vs forwardDCT64 (64 symbolic inputs), asmForwardDCT256 vs forwardDCT256 (256), asmDCT2DHash64 vs DCT2DHash64 Go branch (4096)", "memory": "every load/store of the three routines checked against the argument slice, the declared stack frame and the RODATA tables",
+			"dct2": "float32: n=64 eps 1e-6 + rounding budget 3.5e-5, n=256 eps 2.5e-6 + 2e-4; float64: n=64 1e-13 + 1e-13, n=256 1e-12 + 1e-12, generic n=32 1e-13 + 1e-13; unit impulses: all 320, tolerance 1e-5 (asm and Go for n=64, Go for n=256)",
+			"outside": "the two-dimensional kernels against the 2-D DCT-II, float64 DCT2D/DCT2DHash*, subnormal/overflowing inputs, NaN payloads"},
 	})
 }
 
